@@ -359,4 +359,131 @@ def parameterDouble (f : IniFile) (sec key : Bytes) (dflt : Float) : Float :=
   | none => dflt
   | some v => strtod v
 
+/-! ## the object and its life cycle (`p_ini_file_new`, `p_ini_file_parse`, `p_ini_file_is_parsed`), NULL arguments
+
+A pointer argument that may be NULL is an `Option`.  `PList *` results keep the convention used above:
+NULL is the empty list. -/
+
+/-- `struct PIniFile_`: `sections` is only ever filled by the one successful `p_ini_file_parse` -/
+structure Handle where
+  path : Bytes
+  parsed : Bool
+  file : IniFile
+  deriving Repr
+
+/-- the error codes `p_ini_file_parse` can report -/
+inductive ParseError where
+  /-- `P_ERROR_IO_INVALID_ARGUMENT` (NULL object) -/
+  | invalidArgument
+  /-- `p_error_get_last_io ()` after a failed `fopen`; the payload is what the platform reported
+  (`true` = `P_ERROR_IO_NOT_EXISTS`) -/
+  | openFailed (notExists : Bool)
+  deriving Repr, DecidableEq
+
+/-- `p_ini_file_new`: NULL path gives NULL (allocation failure is C18's business) -/
+def fileNew (path : Option Bytes) : Option Handle :=
+  path.map fun p => { path := cstr p, parsed := false, file := [] }
+
+/-- `p_ini_file_parse`.  `fs` is the file system at the time of the call: the content `fopen (path, "r")`
+would read, or `.error notExists` when the open fails (`notExists`: the platform said ENOENT).  Returns the
+updated object, the boolean result and the error. -/
+def fileParse (fs : Bytes → Except Bool Bytes) (h : Option Handle) : Option Handle × Bool × Option ParseError :=
+  match h with
+  | none => (none, false, some .invalidArgument)
+  | some h =>
+    if h.parsed then (some h, true, none)
+    else match fs h.path with
+      | .error ne => (some h, false, some (.openFailed ne))
+      | .ok content => (some { h with parsed := true, file := parse content }, true, none)
+
+/-- `p_ini_file_is_parsed` -/
+def fileIsParsed (h : Option Handle) : Bool :=
+  match h with
+  | none => false
+  | some h => h.parsed
+
+/-- what the getters may look at: nothing unless the object exists and is parsed
+(`file == NULL || file->is_parsed == FALSE` → NULL / FALSE / default) -/
+def visible (h : Option Handle) : IniFile :=
+  match h with
+  | none => []
+  | some h => if h.parsed then h.file else []
+
+def apiSections (h : Option Handle) : List Bytes := sections (visible h)
+
+def apiKeys (h : Option Handle) (sec : Option Bytes) : List Bytes :=
+  match sec with
+  | none => []
+  | some s => keys (visible h) (cstr s)
+
+def apiIsKeyExists (h : Option Handle) (sec key : Option Bytes) : Bool :=
+  match sec, key with
+  | some s, some k => isKeyExists (visible h) (cstr s) (cstr k)
+  | _, _ => false
+
+/-- `pp_ini_file_find_parameter` with its NULL tests -/
+def apiFind (h : Option Handle) (sec key : Option Bytes) : Option Bytes :=
+  match sec, key with
+  | some s, some k => findParameter (visible h) (cstr s) (cstr k)
+  | _, _ => none
+
+def apiString (h : Option Handle) (sec key : Option Bytes) (dflt : Option Bytes) : Option Bytes :=
+  match apiFind h sec key with
+  | some v => some v
+  | none => dflt.map cstr
+
+def apiInt (h : Option Handle) (sec key : Option Bytes) (dflt : Int) : IntResult :=
+  match apiFind h sec key with
+  | some v => atoi v
+  | none => .val dflt
+
+def apiBoolean (h : Option Handle) (sec key : Option Bytes) (dflt : Bool) : BoolResult :=
+  match apiFind h sec key with
+  | some v => toBoolean v
+  | none => .val dflt
+
+def apiList (h : Option Handle) (sec key : Option Bytes) : List Bytes :=
+  match apiFind h sec key with
+  | some v => toList v
+  | none => []
+
+def apiDouble (h : Option Handle) (sec key : Option Bytes) (dflt : Float) : Float :=
+  match apiFind h sec key with
+  | some v => strtod v
+  | none => dflt
+
+/-! ## the other `pstring.c` entry points -/
+
+/-- `p_strdup`: NULL for NULL, otherwise a copy of the bytes up to the first NUL -/
+def strdup (s : Option Bytes) : Option Bytes := s.map cstr
+
+/-- `p_strchomp` as an entry point: NULL for NULL -/
+def strchomp (s : Option Bytes) : Option Bytes := s.map fun x => chomp (cstr x)
+
+/-- `p_strtod` as an entry point: 0.0 for NULL (`p_strchomp` returned NULL) -/
+def strtodApi (s : Option Bytes) : Float :=
+  match s with
+  | none => 0.0
+  | some x => strtod (cstr x)
+
+/-- one `strtok_r (s, delim, &save)` call on the remaining text `s` (what `save`, or the `str` argument,
+points at): skip delimiters; at the end of the string there is no token; otherwise the token runs up to the
+next delimiter, which is overwritten by NUL, and `save` points behind it (or at the end of the string). -/
+def strtokR (delim s : Bytes) : Option (Bytes × Bytes) :=
+  let s1 := s.dropWhile delim.contains
+  if s1.isEmpty then none
+  else
+    let tok := s1.takeWhile fun b => !delim.contains b
+    some (tok, (s1.drop tok.length).drop 1)
+
+/-- the documented loop `tok = p_strtok (str, d, &buf); while (tok) { …; tok = p_strtok (NULL, d, &buf); }`
+with one delimiter set; `fuel` bounds the number of calls (theorem `strtokLoop_fuel`: `s.length + 1` is
+always enough, every call with a token consumes at least one byte) -/
+def strtokLoop (delim : Bytes) : Nat → Bytes → List Bytes
+  | 0, _ => []
+  | fuel + 1, s =>
+    match strtokR delim s with
+    | none => []
+    | some (tok, rest) => tok :: strtokLoop delim fuel rest
+
 end PV.Ini
